@@ -52,6 +52,7 @@ fn main() {
         "c03-record" => c03::record(rest),
         "c03-replay" => c03::replay(rest),
         "c03-single" => c03::single(rest),
+        "c02-usercost" => c02::usercost(rest),
         "c18-run" => c18::run(rest),
         "c19-world" => c19::world(rest),
         "c19-lib" => c19::lib(rest),
